@@ -85,7 +85,14 @@ func (i ImportNames) TypeName(t types.Type) string {
 		}
 		return typ.Obj().Name()
 	default:
-		return t.String()
+		// Qualify named types inside composite types (slices, maps, ...) the same way as above
+		// instead of with their import path.
+		return types.TypeString(t, func(p *types.Package) string {
+			if pkgName, ok := i[p.Path()]; ok {
+				return pkgName
+			}
+			return ""
+		})
 	}
 }
 
